@@ -110,6 +110,31 @@ def g_append(r, name):
     return L
 
 
+def g_seek(r, name):
+    """Hseek origin arithmetic: base + offset around 0, the element length and 2^31-1, from all three origins"""
+    L = ["history " + name, "hopen 16"]
+    ln = r.choice([10, 100, 1000])
+    L.append("put 110 1 %d" % ln)
+    for _ in range(r.choice([4, 6, 8])):
+        app = r.choice([0, 0, 1])
+        origin = r.choice([0, 1, 1, 2, 2])
+        pos0 = r.choice([0, 1, 3, ln // 2, ln])
+        base = {0: 0, 1: pos0, 2: ln}[origin]
+        off = r.choice([IMAX, IMAX - base, IMAX - base + 1, IMAX - base - 1, -base, -base - 1, -base + 1, ln - base,
+                        ln - base + 1, 0, 1, -1, -(1 << 31), -(1 << 31) + base, r.randrange(-ln - 2, ln + 3)])
+        off = max(-(1 << 31), min(IMAX, off))
+        L.append("seekat 110 1 %d %d %d %d" % (app, origin, off, pos0))
+    L += ["get 110 1", "dds", "reopen", "get 110 1"]
+    return L
+
+
+def g_chunk(r, name):
+    """refs of DFTAG_CHUNK run out while a chunked element is written (HMCPchunkwrite DFE_NOREF)"""
+    k = r.choice([65532, 65533, 65534, 65534, 65535, 65535])
+    return ["history " + name, "hopen %d" % r.choice([4000, 16000]), "chunkfill 300 1 %d" % k, "tagnewref 61", "put 301 1 5",
+            "get 301 1", "reopen", "dds", "get 301 1", "tagnewref 61"]
+
+
 def g_hl(r, name):
     L = ["history " + name, "hopen 16"]
     blen = r.choice([1 << 29, 1 << 28, (1 << 29) + 12345])
@@ -212,7 +237,7 @@ def g_vs(r, name):
         L += ["vsfdefine 0 1 %d 4 7" % fl, "vsfdefine 0 2 0 22 3", "vssetfields 0 1:%d,2" % fl, "vsfieldname 0 0 1 %d" % fl,
               "vsfieldname 0 1 2 0", "vswrite 0 2"]
     L += ["vssetname 0 %d" % r.choice(NAMELENS[:11]), "vsname 0", "vssetclass 0 %d" % r.choice(NAMELENS[:11]), "vsclass 0",
-          "put 140 1 8", "vsdetach 0", "reopen", "vsattach 0 0 r", "vsname 0", "vsclass 0", "vselts 0", "get 140 1", "dds"]
+          "put 140 1 8", "vsdetach 0", "fn_vshdrlen 0", "reopen", "fn_vshdrlen 0", "vsattach 0 0 r", "vsname 0", "vsclass 0", "vselts 0", "get 140 1", "dds"]
     return L
 
 
@@ -288,7 +313,7 @@ def g_fn(r, name):
     return L
 
 
-GENS = [("eof", g_eof, 10), ("append", g_append, 6), ("hl", g_hl, 4), ("refs", g_refs, 3), ("vg", g_vg, 5),
+GENS = [("eof", g_eof, 10), ("append", g_append, 6), ("seek", g_seek, 4), ("chunk", g_chunk, 1), ("hl", g_hl, 4), ("refs", g_refs, 2), ("vg", g_vg, 4),
         ("vs", g_vs, 9), ("sd", g_sd, 5), ("fn", g_fn, 2)]
 
 
@@ -490,7 +515,7 @@ def run(ctx):
         ctx.case(tuple(h[1:]), nf > 0 and no > 0,
                  sample={"history": h[1:8], "library": seg[1:8]} if len(ctx.coverage["samples"]) < 4 and kd != "corpus" else None)
         i, kind = first_bad(R, S, lo, hi)
-        if i is not None and nviol < 4:
+        if i is not None and nviol < 8:
             nviol += 1
             report(ctx, h, kd)
         jm = first_bad_m(R, M, S, flat, lo, hi)
